@@ -41,12 +41,16 @@ P = {
          "one recorded known finding in the third-party example (CustomBuilder::calculate_size)."),
  "C20": ("Whole-view postconditions on every setter/adder/owned variant; size and bytes are functions of the view; wrapper/forwarding contracts.",
          "Cow conversions keep bytes (A-cow); derive(Default) builders start empty (external_body contracts)."),
- "C02": ("Lemma roundtrip over SR/RR/report-block writer image and accessor contracts.", "—"),
+ "C02": ("Round trip stated as verified programs over the real API (build into an exactly sized buffer, parse, read every field and block back) plus spec-level lemmas "
+         "`sr_ok(img_sr(cfg))`, `field(img) == cfg.field`; composed only from the contracts of the real writer and parser functions.", "—"),
  "C03": ("Lemma rfc tokenisation of img_sdes.", "—"),
- "C04": ("Lemma roundtrip over BYE/APP images.", "—"),
- "C05": ("Lemmas roundtrip over feedback images and FCI enumerations.", "NACK builder side bounded only."),
+ "C04": ("BYE and APP round trips as verified build-then-parse programs plus image lemmas (sources, reason present iff configured, name zero-filled, data, padding).",
+         "APP payloads above the 65536-word limit are excluded (known finding D12)."),
+ "C05": ("Feedback header round trip (lemma_fb_image) and FCI round trips for FIR, SLI, RPSI, PLI as verified build-then-parse programs "
+         "(borrowed FCI builder -> feedback builder -> bytes -> parse -> parse_fci -> iterator start state whose RFC enumeration equals the configured entries).",
+         "The NACK builder image is an assumed contract (run-length encoder glue is external_body); the NACK half of the round trip is cross-checked only by the bounded native search. FIR entry order is the map's iteration order (A-hashiter)."),
 }
-CLAIMED = ["C01", "C06", "C07", "C08", "C09", "C10", "C11", "C12", "C13", "C14", "C15", "C16", "C17", "C18", "C19", "C20"]
+CLAIMED = ["C01", "C02", "C04", "C05", "C06", "C07", "C08", "C09", "C10", "C11", "C12", "C13", "C14", "C15", "C16", "C17", "C18", "C19", "C20"]
 NA = {"C02": "round-trip lemma not yet built in this session (writer image and accessor contracts it would compose are proved under C07/C09)",
       "C03": "SDES round-trip lemma not yet built in this session",
       "C04": "round-trip lemma not yet built in this session",
